@@ -456,6 +456,13 @@ Record class_b_position_report := {
   cb_raim : bool;
   cb_radio_status : radio_status }.
 
+(* `let (data, cs_selector) = take_bits(1u8)(data)?; match cs_selector { 0 => Sotdma, 1 => Itdma, _ => unreachable!() }` *)
+Definition parse_cs_radio : P radio_status :=
+  cs_selector <- take 1 ;;
+  (if cs_selector =? 0 then sotdma_parse
+   else if cs_selector =? 1 then itdma_parse
+   else ppanic 707).
+
 Definition parse_class_b_position_report : P class_b_position_report :=
   message_type <- take 6 ;;
   repeat_indicator <- take 2 ;;
@@ -476,10 +483,7 @@ Definition parse_class_b_position_report : P class_b_position_report :=
   accepts_message_22 <- take_bool ;;
   assigned <- take_assigned_mode ;;
   raim <- take_bool ;;
-  cs_selector <- take 1 ;;
-  radio <- (if cs_selector =? 0 then sotdma_parse
-            else if cs_selector =? 1 then itdma_parse
-            else ppanic 707) ;;
+  radio <- parse_cs_radio ;;
   ret {| cb_message_type := message_type; cb_repeat_indicator := repeat_indicator; cb_mmsi := mmsi;
          cb_speed_over_ground := speed_over_ground; cb_position_accuracy := position_accuracy;
          cb_longitude := longitude; cb_latitude := latitude;
